@@ -46,3 +46,37 @@ Example used_lifetimes_old_refuted :
   let t := GPath "Cow" [] [GLt "a"; GPath "str" [] []] in wf t /\ lifetimes_of t = ["a"] /\ used_lifetimes_old (embed t) = [].
 Proof. cbn. repeat split; reflexivity. Qed.
 Print Assumptions used_lifetimes_exact.
+
+(* named array lengths (const parameters used as `[T; N]`), at any depth *)
+Fixpoint lens_of (t: g) : list (list tt) :=
+  match t with
+  | GPath _ _ args => flat_map lens_of args
+  | GRef _ t => lens_of t
+  | GTuple l _ => flat_map lens_of l
+  | GArray t (Some (LName s)) => [TId s] :: lens_of t
+  | GArray t _ => lens_of t
+  | GLt _ | GNever => []
+  end.
+Lemma lens_eq c w rt ao : array_lens (Ty c w rt ao) =
+  (match c with CArray _ (Some (CNamedC v)) => [pr v] | _ => [] end) ++ (match w with Some ws => flat_map array_lens ws | None => [] end).
+Proof. reflexivity. Qed.
+Lemma flat_map_lens (l: list g) : Forall (fun t => wf t -> array_lens (embed t) = lens_of t) l -> wf_all l ->
+  flat_map array_lens (map embed l) = flat_map lens_of l.
+Proof.
+  intros F W. apply wf_all_Forall in W. induction l as [|x l IH]; [reflexivity|].
+  inversion F as [|? ? Fx Fl]; subst. inversion W as [|? ? Wx Wl]; subst. cbn [map flat_map]. rewrite (Fx Wx), (IH Fl Wl). reflexivity.
+Qed.
+Theorem array_lens_exact : forall t, wf t -> array_lens (embed t) = lens_of t.
+Proof.
+  induction t as [s0 segs args IH|lt t IH|l tr IH|t len IH|a|] using g_ind2; intros W.
+  - cbn in W. destruct W as [_ Wa]. fold (wf_all args) in Wa. cbn [embed lens_of]. rewrite lens_eq. cbn [app].
+    destruct args as [|a0 args]; [reflexivity|]. apply (flat_map_lens _ IH Wa).
+  - cbn in W. destruct W as [Hb Wt]. cbn [embed lens_of]. specialize (IH Wt). destruct (embed t) as [c w r ao]. rewrite lens_eq in *. exact IH.
+  - cbn in W. destruct W as [_ Wl]. fold (wf_all l) in Wl. cbn [embed lens_of]. rewrite lens_eq. cbn [app].
+    rewrite flat_map_app, <- (flat_map_lens _ IH Wl). destruct (tr || match l with [] => true | _ => false end); cbn; rewrite ?app_nil_r; reflexivity.
+  - cbn in W. destruct W as [Wt _]. cbn [embed lens_of]. rewrite lens_eq. cbn [flat_map]. rewrite app_nil_r, (IH Wt).
+    destruct len as [[n|s]|]; reflexivity.
+  - reflexivity.
+  - reflexivity.
+Qed.
+Print Assumptions array_lens_exact.
